@@ -221,6 +221,13 @@ fn resolve_mates(records: &mut [Record]) -> io::Result<()> {
         let mut j = i;
 
         while let Some(mate_index) = mate_indices[j] {
+            if mate_index >= records.len() {
+                return Err(io::Error::new(
+                    io::ErrorKind::InvalidData,
+                    "invalid mate distance",
+                ));
+            }
+
             let mid = j + 1;
             let (left, right) = records.split_at_mut(mid);
 
